@@ -27,15 +27,22 @@ FAULT_CLASSES = [({}, 0.4), ({"drop": True, "restart": True}, 0.2), ({"race": Tr
 def gen_spec(rng, max_jobs=6):
     total = rng.randint(1, 4)
     ns = rng.choice([1, 2, 2, 2, 3, 3])
-    ptok = [rng.randint(1, 2)] if rng.random() < 0.5 else []
+    ptok = [rng.choice([1, 1, 1, 2])] if rng.random() < 0.55 else []
     nj = rng.randint(2, max_jobs)
     jobs = []
+    abort_heavy = rng.random() < 0.2  # several jobs of one scheduler take the file token first and then compete for a private token of 1
+    if abort_heavy:
+        total, ptok = max(total, 2), [1]
     for j in range(nj):
         s = rng.randrange(ns)
+        if abort_heavy and j < 3:
+            jobs.append({"sched": 0, "ident": j, "deps": [["f", rng.randint(1, max(1, total // 2))], ["t", 0, 1]],
+                         "code": 0 if rng.random() > 0.2 else 1, "marker": False})
+            continue
         deps = []
         if rng.random() < 0.9:
             deps.append(["f", rng.randint(1, total)])
-        if ptok and rng.random() < 0.5:
+        if ptok and rng.random() < 0.75:  # contention on a private token: starts that abort after taking the file token
             deps.append(["t", 0, rng.randint(1, ptok[0])])
         deps += [["j", d] for d in range(j) if jobs[d]["sched"] == s and rng.random() < 0.25]
         rng.shuffle(deps)
@@ -208,6 +215,11 @@ def run(ctx, prop, n_quick, n_thorough):
         ctx.count("ft_jobs", len(spec["jobs"]))
         ctx.count("ft_fault_class", "+".join(sorted(faults)) or "none")
         ctx.count("ft_quiescent", r["quiescent"])
+        prev = None
+        for op, out, o in oplog:
+            if op[0] == "release" and out["ok"]:
+                ctx.count("ft_release_kind", "aborted start (job lock still held)" if prev is not None and op[2] in prev["active"] else "after the job ended")
+            prev = o
         for op, out, _ in oplog:
             ctx.count("ft_token_op", op[0] + ("" if out["ok"] else ":fail"))
         for e in r["events"]:
@@ -389,13 +401,13 @@ def real_runs(ctx, prop, rounds=2, timeout=75):
                 out, err = p.communicate()
                 hung = True
             sig = ("F6" if "not enough values to unpack" in err else
-                   "F26" if "FileNotFoundError" in err and "in release" in err else
+                   "F30" if "FileNotFoundError" in err and "in release" in err else
                    "F24" if "Could not find the taken token" in err else None)
             if sig:
                 stats["signatures"][sig] = stats["signatures"].get(sig, 0) + 1
             if hung:
                 stats["hung_schedulers"] += 1
-                key = {"F6": "watcher-dies-on-half-written-token-file", "F26": "release-raises-when-watcher-deleted-first",
+                key = {"F6": "watcher-dies-on-half-written-token-file", "F30": "release-raises-when-watcher-deleted-first",
                        "F24": "release-of-reclaimed-token-does-not-notify"}.get(sig)
                 if prop == "C09" and key:
                     ctx.monitor_fail(key, f"real run: scheduler process {s} of 3 sharing a token of {total} did not finish within {timeout} s; "
